@@ -55,6 +55,14 @@ Definition select_h (rk : list nat) (c : cfg) (pop : list hagent) (draws : list 
       Some (elite, first ++ others, h3)
   end.
 
+(* whatever happens to the children afterwards — scores appended in place to their fitness lists
+   (agent.fitness.append), gradient steps on their parameters, optimizer updates, mutations — is a
+   sequence of in-place writes to objects they own *)
+Definition write (h : heap) (l : nat) (v : option val) : heap :=
+  {| next := next h; store := fun x => if x =? l then v else store h x |}.
+Fixpoint writes (h : heap) (ws : list (nat * option val)) : heap :=
+  match ws with [] => h | w :: t => writes (write h (fst w) (snd w)) t end.
+
 (* what an agent looks like to an observer who only reads values *)
 Definition abs (h : heap) (a : hagent) : agent (list (option val)) :=
   {| a_index := h_index a;
